@@ -1,7 +1,7 @@
 """C02 - section and segment contents, string tables and address mapping are exact."""
 from symx.api import H
 from spec import enc
-from harness.elfkit import stream_length
+from harness.elfkit import stream_length, elf_object
 from spec import elf_layout as L
 
 PROPERTY = 'C02'
@@ -17,16 +17,8 @@ OUTSIDE = ['real deflate streams', 'UTF-8 decoding of non-ASCII names', 'the ELF
 ENVS = [(32, True), (32, False), (64, True), (64, False)]
 
 
-class _Elf:
-    def __init__(self, ctx, stream, cls, little, machine='EM_X86_64'):
-        S = ctx.lib('elf.structs')
-        self.stream = stream
-        self.stream_len = stream_length(stream)
-        self.elfclass = cls
-        self.little_endian = little
-        self.structs = S.ELFStructs(little_endian=little, elfclass=cls)
-        self.structs.create_basic_structs()
-        self.structs.create_advanced_structs('ET_EXEC', machine, 'ELFOSABI_SYSV')
+def _Elf(ctx, stream, cls, little, machine='EM_X86_64'):
+    return elf_object(ctx, stream, cls, little, machine, 'ET_EXEC')
 
 
 def _shdr(**kw):
@@ -210,23 +202,31 @@ class _MapElf:
 
 
 def h_addrmap(ctx):
+    """address_offsets on a REAL file object: an image of the class given by cfg['bits'] whose k program headers carry the symbolic
+    values (types restricted to kinds without a specialised segment class, which would read further tables on creation)"""
     cfg = ctx.cfg
     k = cfg['nseg']
     EF = ctx.lib('elf.elffile')
-    SEG = ctx.lib('elf.segments')
     W = cfg['bits']
+    from harness.elfkit import Image
+    img = Image(W, cfg.get('little', True), e_type=2)
+    TYPES = [1, 0x6474e552, 7, 6, 0, 0x70000001]         # PT_LOAD, PT_GNU_RELRO, PT_TLS, PT_PHDR, PT_NULL, a processor-specific one
     segs = []
     for i in range(k):
-        t = ctx.choice('p%d.type' % i, ['PT_LOAD', 'PT_NOTE', 'PT_DYNAMIC', 'PT_GNU_RELRO', 7])
-        segs.append(dict(p_type=t, p_vaddr=ctx.uint('p%d.vaddr' % i, W), p_filesz=ctx.uint('p%d.filesz' % i, W), p_offset=ctx.uint('p%d.offset' % i, W)))
+        t = ctx.select(TYPES, ctx.int_range('p%d.type' % i, 0, len(TYPES) - 1))
+        f = dict(p_type=t, p_vaddr=ctx.uint('p%d.vaddr' % i, W), p_filesz=ctx.uint('p%d.filesz' % i, W), p_offset=ctx.uint('p%d.offset' % i, W),
+                 p_paddr=0, p_memsz=0, p_flags=5, p_align=1)
+        segs.append(f)
+        img.segment(**f)
     start = ctx.uint('start', W)
     size = ctx.uint('size', W)
-    elf = EF.ELFFile.__new__(EF.ELFFile)
-    elf.stream = None
-    elf.header = {'e_phnum': k}
-    objs = [SEG.Segment(h, None) for h in segs]
-    elf.num_segments = lambda: k
-    elf.get_segment = lambda n: objs[n]
+    if cfg.get('xnum'):
+        # extended program header numbering: e_phnum holds the escape value PN_XNUM, the count is sh_info of section header 0
+        img.section('', sh_type=0, sh_info=k)
+        img.add_shstrtab()
+        elf = EF.ELFFile(ctx.stream(img.build(e_phnum=0xffff)))
+    else:
+        elf = EF.ELFFile(ctx.stream(img.build()))
     got = list(elf.address_offsets(start, size)) if cfg.get('withsize', True) else list(elf.address_offsets(start))
     if not cfg.get('withsize', True):
         size = 1
@@ -234,10 +234,12 @@ def h_addrmap(ctx):
     # reference: PT_LOAD segments that wholly contain [start, start+size), in table order
     want = []
     for s in segs:
-        inside = ctx.land(s['p_type'] == 'PT_LOAD', start >= s['p_vaddr'], start + size <= s['p_vaddr'] + s['p_filesz'])
+        inside = ctx.land(s['p_type'] == 1, start >= s['p_vaddr'], start + size <= s['p_vaddr'] + s['p_filesz'])
         if ctx.fork(inside):
             want.append(start - s['p_vaddr'] + s['p_offset'])
     ctx.check_eq('addrmap/offsets', got, want)
+    ctx.check_eq('addrmap/loadable-segments-enumerated', [x['p_offset'] for x in elf.iter_segments(type='PT_LOAD')],
+                 [s['p_offset'] for s in segs if ctx.fork(s['p_type'] == 1)])
 
 
 # ------------------------------------------------------------------ H2.6 strict section-in-segment
@@ -325,7 +327,8 @@ HARNESSES = [
       desc='InterpSegment.get_interp_name(): NUL-terminated string at the (symbolic) segment start, content symbolic'),
     H('h2_4_strtab', h_strtab, _strtab_instances, expect=('ok', 'unterminated'),
       desc='StringTableSection.get_string at a symbolic offset in a table of symbolic ASCII content: bytes up to the first NUL at or after the offset; also across the 64-byte read chunk'),
-    H('h2_5_addrmap', h_addrmap, lambda tier: [dict(nseg=k, bits=b, withsize=w) for k in ((0, 1, 2) if tier == 'quick' else (0, 1, 2, 3)) for b in (32, 64) for w in (True, False)],
+    H('h2_5_addrmap', h_addrmap, lambda tier: [dict(nseg=k, bits=b, withsize=w) for k in ((0, 1, 2) if tier == 'quick' else (0, 1, 2, 3)) for b in (32, 64) for w in (True, False)] +
+                   [dict(nseg=k, bits=b, withsize=True, xnum=True, little=(b == 64)) for k in (1, 2) for b in (32, 64)],
       expect=('ok',),
       desc='ELFFile.address_offsets with k segments whose type, p_vaddr, p_filesz, p_offset are symbolic and a symbolic [start, start+size): exactly the PT_LOAD segments that wholly contain the range, in order'),
     H('h2_6_in_segment', h_in_segment, _in_seg_instances, expect=('ok',),
